@@ -43,7 +43,8 @@ func (h *HandleHelper) IssueAccessToken(ctx context.Context, defaultLifespan tim
 // IssueAccessToken) into a server_error, so that it does not reach the client as an unrecognizable error.
 func toServerError(err error) error {
 	var rfcErr *fosite.RFC6749Error
-	if err == nil || errors.As(err, &rfcErr) {
+	// fosite.ErrSerializationFailure is an RFC6749Error too, but one that carries the same unrecognizable error name.
+	if err == nil || (errors.As(err, &rfcErr) && rfcErr.ErrorField != fosite.ErrSerializationFailure.ErrorField) {
 		return err
 	}
 	return errorsx.WithStack(fosite.ErrServerError.WithWrap(err).WithDebug(err.Error()))
